@@ -48,61 +48,100 @@ func sharedStorageWrites(c *an.Ctx, rule string, roots []*ssa.Function) {
 		return false
 	}
 	n, nBad := 0, 0
-	for _, fn := range fns {
-		fn := fn
-		// fields of fresh objects that ever receive a shared-backed value
-		tainted := map[string]bool{}
-		var shared func(v ssa.Value, depth int) bool
-		shared = func(v ssa.Value, depth int) bool {
-			if depth > 6 || v == nil || !isRefStore(v.Type()) {
-				return false
-			}
-			for _, s := range an.Sources(v) {
-				switch x := s.(type) {
-				case *ssa.UnOp:
-					if x.Op != token.MUL {
-						continue
-					}
-					fa, ok := x.X.(*ssa.FieldAddr)
-					if !ok {
-						continue
-					}
-					if fresh, _ := an.FreshBase(fa.X); fresh {
-						if tainted[an.TypeField(fa)] {
-							return true
-						}
-						continue
-					}
-					return true
-				case *ssa.Slice:
-					if x.Max == nil && shared(x.X, depth+1) {
-						return true
-					}
-				case *ssa.Call:
-					if b, ok := x.Call.Value.(*ssa.Builtin); ok && b.Name() == "append" && shared(x.Call.Args[0], depth+1) {
-						return true
-					}
-				}
-			}
+	inScope := map[*ssa.Function]bool{}
+	for _, f := range fns {
+		inScope[f] = true
+	}
+	// interprocedural part: a helper's parameter is shared-backed when some caller passes a shared-backed
+	// value, a helper's result when one of its returns is
+	sharedParam := map[*ssa.Parameter]bool{}
+	sharedRet := map[*ssa.Function]bool{}
+	tainted := map[string]bool{} // fields of fresh objects that ever receive a shared-backed value
+	var shared func(v ssa.Value, depth int) bool
+	shared = func(v ssa.Value, depth int) bool {
+		if depth > 6 || v == nil || !isRefStore(v.Type()) {
 			return false
 		}
-		for changed := true; changed; {
-			changed = false
-			an.EachInstr(fn, func(in ssa.Instruction) {
-				st, ok := in.(*ssa.Store)
+		for _, s := range an.Sources(v) {
+			switch x := s.(type) {
+			case *ssa.Parameter:
+				if sharedParam[x] {
+					return true
+				}
+			case *ssa.UnOp:
+				if x.Op != token.MUL {
+					continue
+				}
+				fa, ok := x.X.(*ssa.FieldAddr)
 				if !ok {
-					return
+					continue
 				}
-				fa, ok := st.Addr.(*ssa.FieldAddr)
-				if !ok || tainted[an.TypeField(fa)] {
-					return
+				if fresh, _ := an.FreshBase(fa.X); fresh {
+					if tainted[an.TypeField(fa)] {
+						return true
+					}
+					continue
 				}
-				if fresh, _ := an.FreshBase(fa.X); fresh && shared(st.Val, 0) {
-					tainted[an.TypeField(fa)] = true
-					changed = true
+				return true
+			case *ssa.Slice:
+				if x.Max == nil && shared(x.X, depth+1) {
+					return true
+				}
+			case *ssa.Call:
+				if b, ok := x.Call.Value.(*ssa.Builtin); ok && b.Name() == "append" && shared(x.Call.Args[0], depth+1) {
+					return true
+				}
+				if callee := x.Call.StaticCallee(); callee != nil && sharedRet[callee] {
+					return true
+				}
+			case *ssa.Extract:
+				if call, ok := x.Tuple.(*ssa.Call); ok {
+					if callee := call.Call.StaticCallee(); callee != nil && sharedRet[callee] {
+						return true
+					}
+				}
+			}
+		}
+		return false
+	}
+	for changed := true; changed; {
+		changed = false
+		for _, fn := range fns {
+			an.EachInstr(fn, func(in ssa.Instruction) {
+				switch x := in.(type) {
+				case *ssa.Store:
+					if fa, ok := x.Addr.(*ssa.FieldAddr); ok && !tainted[an.TypeField(fa)] {
+						if fresh, _ := an.FreshBase(fa.X); fresh && shared(x.Val, 0) {
+							tainted[an.TypeField(fa)] = true
+							changed = true
+						}
+					}
+				case *ssa.Return:
+					if !sharedRet[fn] {
+						for _, r := range x.Results {
+							if shared(r, 0) {
+								sharedRet[fn] = true
+								changed = true
+							}
+						}
+					}
+				case *ssa.Call:
+					callee := x.Call.StaticCallee()
+					if callee == nil || !inScope[callee] {
+						return
+					}
+					for i, a := range x.Call.Args {
+						if i < len(callee.Params) && !sharedParam[callee.Params[i]] && shared(a, 0) {
+							sharedParam[callee.Params[i]] = true
+							changed = true
+						}
+					}
 				}
 			})
 		}
+	}
+	for _, fn := range fns {
+		fn := fn
 		an.EachInstr(fn, func(in ssa.Instruction) {
 			switch x := in.(type) {
 			case *ssa.Call:
